@@ -226,6 +226,16 @@ int reb_binary_diff(char* buf1, size_t size1, char* buf2, size_t size2, char** b
                 for (unsigned int i=0;i<field1.size/sizeof(struct reb_particle);i++){
                     fields_differ |= reb_particle_diff(pb1[i],pb2[i]);
                 }
+            }else if (strcmp(reb_binary_field_descriptor_for_type(field1.type).name, "var_config")==0){
+                // The sim pointer is a memory address. It differs between a simulation and its copy.
+                for (unsigned int i=0;i<field1.size/sizeof(struct reb_variational_configuration);i++){
+                    struct reb_variational_configuration vc1, vc2;
+                    memcpy(&vc1, buf1+pos1+i*sizeof(struct reb_variational_configuration), sizeof(struct reb_variational_configuration));
+                    memcpy(&vc2, buf2+pos2+i*sizeof(struct reb_variational_configuration), sizeof(struct reb_variational_configuration));
+                    vc1.sim = NULL;
+                    vc2.sim = NULL;
+                    fields_differ |= (memcmp(&vc1,&vc2,sizeof(struct reb_variational_configuration))!=0);
+                }
             }else{
                 if (memcmp(buf1+pos1,buf2+pos2,field1.size)!=0){
                     fields_differ = 1;
